@@ -44,6 +44,12 @@ def main(argv):
         if prop == "C15":
             import shapeschk
             return shapeschk.replay(prop, rp) if rp else shapeschk.check(prop, tier)
+        if prop == "C04":
+            import sealchk
+            return sealchk.replay(prop, rp) if rp else sealchk.check(prop, tier)
+        if prop == "C18":
+            import racechk
+            return racechk.replay(prop, rp) if rp else racechk.check(prop, tier)
         if prop == "C08":
             import locks
             return locks.replay(prop, rp) if rp else locks.check(prop, tier)
